@@ -36,6 +36,7 @@ Inductive label :=
 | LSdCancel (k j : nat)        (* wait=False: cancel task for job j *)
 | LSdSnap (k : nat)            (* wait=True: snapshots the registry *)
 | LSdJoin (k : nat)            (* wait=True: result() of the next job of the snapshot returns *)
+| LSdRaise (k : nat)           (* wait=True: result() of the next job raises; shutdown() terminates with that exception *)
 | LSdReturn (k : nat).         (* shutdown() RETURNS *)
 
 Definition label_eq_dec : forall a b : label, {a = b} + {a <> b}.
@@ -53,6 +54,7 @@ Fixpoint deliveries (j : nat) (tr : list label) : nat :=
 Definition accepted (j : nat) (tr : list label) : Prop := In (LSubStart j) tr.
 Definition wait_returned (j : nat) (tr : list label) : Prop := In (LSubWait j) tr.
 Definition timed_out (j : nat) (tr : list label) : Prop := In (LCommTimeout j) tr.
+Definition shutdown_raised (k : nat) (tr : list label) : Prop := In (LSdRaise k) tr.
 
 (* ---- after shutdown() has returned (the weakest reading of "after a shutdown
    request"): no job is accepted any more, no solver process is spawned any more --- *)
